@@ -206,6 +206,10 @@ Fixpoint drop_zeros (fuel : nat) (q : rq N) : rq N :=
            end
   end.
 
+(* more than one client-to-server frame was handed over in action [act] *)
+Definition burst_at (act : N) (tr : trace) : bool :=
+  Nat.leb 2 (length (filter (fun e => match e with (a, Deliver C2S _ 1) => N.eqb a act | _ => false end) tr)).
+
 Definition closed_with (code : N) (act : N) (t : N) (id : Z) (tr : trace) : bool :=
   existsb (fun e => match e with
                     | (a, Emit S2C t' id' (KClose st _) _) => N.eqb a act && N.eqb t t' && Z.eqb id id' && is_code st code
@@ -256,7 +260,8 @@ Definition overrun_step (tr : trace) (s : ostate) (e : N * ev) : ostate :=
                   match rq_accept nid (o_q o) len with
                   | (q', AccOk) =>
                       let s' := mkOs (oset (mkO (o_key o) q' true) (os_streams s)) (os_q s) (os_fails s) (os_dead s) in
-                      if closed_with 8 act t' id tr then mkOs (os_streams s') (os_q s') (os_fails s' ++ fl 611 act id 1) (os_dead s') else s'
+                      (* (in a burst - several frames handed over in one action - the close may answer a later frame) *)
+                      if closed_with 8 act t' id tr && negb (burst_at act tr) then mkOs (os_streams s') (os_q s') (os_fails s' ++ fl 611 act id 1) (os_dead s') else s'
                   | (_, AccDropped) => s
                   | (_, AccOverrun) =>
                       let s' := mkOs (oset (mkO (o_key o) (o_q o) false) (os_streams s)) (os_q s) (os_fails s) (os_dead s) in
